@@ -2,7 +2,7 @@
 import copy
 
 from ..runner import TestSpec, Outcome
-from ..terms import Null, Leaf, Op, Prim, Part, PathT, RuleT, SchemaT, show, simp, depth
+from ..terms import Null, Leaf, Op, Prim, Part, PathT, RuleT, SchemaT, show, simp, depth, leaves
 from .. import model, build, gen as G
 from ..snapshot import exact
 
@@ -45,7 +45,15 @@ def change_value(r, v):
     if isinstance(v, int):
         return v + r.choice([1, -1, 2])
     if isinstance(v, float):
+        if r.pct() < 25 and v == v and abs(v) < 1e300:
+            # the neighbouring float (0.3 and 0.1 + 0.2 are different numbers)
+            import math
+            return math.nextafter(v, math.inf if r.coin() else -math.inf)
         return v + r.choice([1.0, -0.5])
+    if isinstance(v, list) and r.pct() < 15:
+        return tuple(v)  # the tuple with the same items is another argument (it equals no list)
+    if isinstance(v, tuple) and r.pct() < 25:
+        return list(v)
     if isinstance(v, str):
         return r.choice([s for s in ["a", "b", "abc", "x y", "1", "zz"] if s != v])
     if isinstance(v, type):
@@ -208,6 +216,15 @@ def gen_case(r):
         if isinstance(x, Null):
             x = Leaf("value", None, "truthy")
         y = change_cond(r, x)
+        if kc == "value":
+            # a probe made of the argument values themselves (so that two conditions that differ in one argument are
+            # seen to differ): lists stand in for tuples, which no JSON / YAML document holds
+            def plain(v):
+                return [plain(i) for i in v] if isinstance(v, (list, tuple)) else v
+            wit = [plain(a) for t_ in (x, y) for l_ in leaves(t_) for a in list(l_.args) + list(l_.kwargs.values())
+                   if not isinstance(a, (type, PathT))]
+            if wit:
+                probes = probes + [wit]
         if kc == "key":
             probes = [G.map_doc(r, 2, G.hostile_scalar), G.map_doc(r, 2)]
         elif kc == "index":
